@@ -216,16 +216,16 @@ namespace sim
     run_range_op (int rk, const std::vector<int>& vals, const op& o, F& f)
     {
       src_range<E> src (vals, rk_is_int (rk), rk_is_single_pass (rk), cfg.stream_faults);
-      try
+      SVSIM_TRY
       {
         if (! wr_copy (rk, src, o, f, copyable_t ())
             && ! wr_int (rk, src, o, f, std::integral_constant<bool, AllowInt> ()))
           wr_move (rk, src, o, f);
       }
-      catch (...)
+      SVSIM_CATCH_ALL
       {
         verify_range_use (src.st, false, op_name (o.kind));
-        throw;
+        SVSIM_RETHROW;
       }
       verify_range_use (src.st, true, op_name (o.kind));
     }
